@@ -301,9 +301,11 @@ func (f *Frame) enterLoop(l *Loop, pre *State, prePhi map[*ssa.Phi]Val) *State {
 	for _, k := range names {
 		vc.havoc(hdr, k)
 	}
-	a := vc.fresh("A", SInt)
-	vc.fact(Ge(a, pre.alloc))
-	hdr.alloc = a
+	if l.modset == nil || l.modset.alloc {
+		a := vc.fresh("A", SInt)
+		vc.fact(Ge(a, pre.alloc))
+		hdr.alloc = a
+	}
 	for k := range hdr.ghost {
 		if strings.HasPrefix(k, "lock:") || strings.HasPrefix(k, "pos:") {
 			// ghost state modified in loops is havocked conservatively
@@ -437,12 +439,17 @@ func (f *Frame) makeCandidates(l *Loop) {
 	if !vc.want("CAND") {
 		return
 	}
-	mk1 := func(id string, ev func(st *State, phi map[*ssa.Phi]Val) Term) {
+	mkc := func(parent, id string, ev func(st *State, phi map[*ssa.Phi]Val) Term) string {
 		id = fmt.Sprintf("%s/L%d/%s", f.oblFn(), l.ordinal, id)
 		en := vc.declare("en|"+id, SBool)
-		l.cands = append(l.cands, &Cand{id: id, enable: en, eval: ev})
+		l.cands = append(l.cands, &Cand{id: id, enable: en, eval: ev, parent: parent})
 		vc.eng.candEnable[id] = en
+		if parent != "" {
+			vc.eng.candParent[id] = parent
+		}
+		return id
 	}
+	mk1 := func(id string, ev func(st *State, phi map[*ssa.Phi]Val) Term) { mkc("", id, ev) }
 	pre := l.pre
 	entry := f.rootFrame().entry
 	var names []string
@@ -450,6 +457,21 @@ func (f *Frame) makeCandidates(l *Loop) {
 		names = append(names, k)
 	}
 	sort.Strings(names)
+	// per-component evaluators, grouped by the kind of object they live in
+	type evf = func(st *State, phi map[*ssa.Phi]Val) Term
+	groups := map[string][][2]any{} // template|root -> [(comp, eval)]
+	var gorder []string
+	addG := func(tmpl, k string, ev evf) {
+		root := kindOfComp(k)
+		if root == "" {
+			root = k
+		}
+		key := tmpl + ":" + root
+		if _, ok := groups[key]; !ok {
+			gorder = append(gorder, key)
+		}
+		groups[key] = append(groups[key], [2]any{k, ev})
+	}
 	for _, k := range names {
 		k := k
 		s := vc.compSort(k)
@@ -460,7 +482,7 @@ func (f *Frame) makeCandidates(l *Loop) {
 		entC := vc.get(entry, k)
 		preA := pre.alloc
 		// objects existing before the function are unchanged w.r.t. function entry
-		mk1("frame0:"+k, func(st *State, _ map[*ssa.Phi]Val) Term {
+		addG("frame0", k, func(st *State, _ map[*ssa.Phi]Val) Term {
 			r := Term{"r!q", SInt}
 			cur := vc.get(st, k)
 			return Forall([]Term{r}, Imp(Lt(r, vc.A0), Eq(Select(cur, r), Select(entC, r))), []Term{Select(cur, r)})
@@ -468,7 +490,7 @@ func (f *Frame) makeCandidates(l *Loop) {
 		// the fresh region is closed: objects allocated by this function hold
 		// only fresh-or-nil references in this component
 		if isRefComp(k) {
-			mk1("own:"+k, func(st *State, _ map[*ssa.Phi]Val) Term {
+			addG("own", k, func(st *State, _ map[*ssa.Phi]Val) Term {
 				r := Term{"r!q", SInt}
 				cur := vc.get(st, k)
 				fresh := func(e Term) Term { return Or(Eq(e, Zero), Ge(e, vc.A0)) }
@@ -489,11 +511,29 @@ func (f *Frame) makeCandidates(l *Loop) {
 			})
 		}
 		// objects existing before the loop are unchanged w.r.t. loop entry
-		mk1("frameL:"+k, func(st *State, _ map[*ssa.Phi]Val) Term {
+		addG("frameL", k, func(st *State, _ map[*ssa.Phi]Val) Term {
 			r := Term{"r!q", SInt}
 			cur := vc.get(st, k)
 			return Forall([]Term{r}, Imp(Lt(r, preA), Eq(Select(cur, r), Select(preC, r))), []Term{Select(cur, r)})
 		})
+	}
+	for _, key := range gorder {
+		members := groups[key]
+		if len(members) == 1 {
+			mk1(strings.SplitN(key, ":", 2)[0]+":"+members[0][0].(string), members[0][1].(evf))
+			continue
+		}
+		ms := members
+		gid := mkc("", key+"|*", func(st *State, phi map[*ssa.Phi]Val) Term {
+			var cs []Term
+			for _, m := range ms {
+				cs = append(cs, m[1].(evf)(st, phi))
+			}
+			return And(cs...)
+		})
+		for _, m := range ms {
+			mkc(gid, strings.SplitN(key, ":", 2)[0]+":"+m[0].(string), m[1].(evf))
+		}
 	}
 	for _, p := range l.phis {
 		p := p
